@@ -97,4 +97,20 @@ Section Instance.
   Corollary dft_correlate gs x y : (forall n, (1 <= n)%Z -> (n <= gs n)%Z) -> (1 <= len x)%Z -> (1 <= len y)%Z ->
     SPP.Gen.FftOps.correlate_run (dft_fft gs) x y = xcorr_list x y.
   Proof. intros Hgs Hx Hy. apply correlate_lags; [apply dft_laws; exact Hgs|exact Hx|exact Hy]. Qed.
+  (** the compiled wrapper nb_rfft (Gen/FftOps.v) at the series' OWN length, run with the exact transform: bin k is the discrete
+      Fourier sum of the series itself -- not cropped, not padded to a good size -- for every length (prime, FFT-unfriendly, ...) *)
+  Lemma dft_nb_rfft_own_length gs x k : (k < length x)%nat ->
+    nth k (SPP.Gen.FftOps.nb_rfft_run (dft_fft gs) x None) r0 = dft (length x) (sig x) k.
+  Proof. intro Hk. unfold SPP.Gen.FftOps.nb_rfft_run. cbn [dft_fft fft_rfft]. unfold d_rfft.
+    rewrite pad_full. unfold len. rewrite Nat2Z.id. apply nth_map_seq. exact Hk. Qed.
+
+  (** ... and Parseval's identity at that length (bilinear form of Proofs/C12_dft.v: dftc is the conjugate transform) *)
+  Lemma dft_nb_rfft_own_length_parseval gs x : (0 < length x)%nat ->
+    rsum (length x) (fun k => nth k (SPP.Gen.FftOps.nb_rfft_run (dft_fft gs) x None) r0 [*]
+                              dftc R r0 r1 radd rmul (length x) (w (length x)) (sig x) k) =
+    rnat (length x) [*] rsum (length x) (fun j => sig x j [*] sig x j).
+  Proof. intro Hn. set (n := length x) in *.
+    rewrite (rsum_ext R r0 radd n _ (fun k => dft n (sig x) k [*] dftc R r0 r1 radd rmul n (w n) (sig x) k)).
+    2:{ intros k Hk. rewrite dft_nb_rfft_own_length by exact Hk. reflexivity. }
+    apply (plancherel R r0 r1 radd rmul rsub ropp Rth n Hn (w n) (w_pow n Hn) (w_orth n)). Qed.
 End Instance.
